@@ -66,6 +66,7 @@ class RobotModel:
         self.mode_nt = "<unset>"
         self.vals = None           # (comp, attr) -> value once the components are set up
         self.autosel = cfg.get("auto_selector_initial")
+        self.utia = bool(cfg["use_teleop_in_auto"])     # may be changed at run time (between autonomous periods)
         self.sel_pending = None    # chooser selection written by the dashboard ...
         self.sel = None            # ... and taken into account at the next SmartDashboard.updateValues()
         self.fb_nt = {}
@@ -148,6 +149,8 @@ class RobotModel:
                     self.vals[(a[1], a[2])] = a[3]
             elif k == "autosel":
                 self.autosel = a[1]
+            elif k == "utia":
+                self.utia = bool(a[1])
             elif k == "select":
                 self.sel_pending = a[1]
             elif k == "end":
@@ -230,6 +233,8 @@ class RobotModel:
                     self.ds["fms"] = bool(a[3])
             elif k == "autosel":
                 self.autosel = a[1]
+            elif k == "utia":
+                self.utia = bool(a[1])
             elif k == "select":
                 self.sel_pending = a[1]
             elif k == "end":
@@ -363,6 +368,7 @@ class RobotModel:
         it = 0
         self._all("on_enable")
         self.guarded("robot.autonomousInit")
+        utia = self.utia           # the flag as it is when the period starts
         m = self.selected_mode()
         t0 = self.now
         mm = self.mode_models.get(m) if m is not None else None
@@ -387,7 +393,7 @@ class RobotModel:
                             if ev[0] == "CALL":
                                 self.sm_calls += 1
                                 self.cb(f"mode.{m}.st.{ev[1]}", [ev[2], ev[3], ev[4]])
-            if self.cfg["use_teleop_in_auto"]:
+            if utia:
                 self.guarded("robot.teleopPeriodic")
             self._enabled_periodic()
             self.wait()
